@@ -125,17 +125,36 @@ func c17R1(c *Ctx) {
 	t := &c17Taint{c: c, fields: map[*types.Var]bool{mimeRoot: true, mimeGen: true}, params: map[*types.Var]bool{}, results: map[*types.Func]bool{},
 		locals: map[*types.Var]bool{}, inScope: map[*core.FuncInfo]bool{}}
 	t.params[parse.Obj.Type().(*types.Signature).Params().At(0)] = true
+	// the judged scope: internal/fmtp, codecParametersFuzzySearch and the same-package helpers it calls (transitively, depth 3)
+	fuzzyScope := map[*core.FuncInfo]bool{fuzzy: true}
+	frontier := []*core.FuncInfo{fuzzy}
+	for depth := 0; depth < 3 && len(frontier) > 0; depth++ {
+		var next []*core.FuncInfo
+		for _, fi := range frontier {
+			info := fi.Pkg.TypesInfo
+			ast.Inspect(fi.Decl.Body, func(n ast.Node) bool {
+				if call, ok := n.(*ast.CallExpr); ok {
+					if callee := c.P.DeclOf(core.Callee(info, call)); callee != nil && callee.Decl.Body != nil && callee.Pkg == fuzzy.Pkg && !fuzzyScope[callee] {
+						fuzzyScope[callee] = true
+						next = append(next, callee)
+					}
+				}
+				return true
+			})
+		}
+		frontier = next
+	}
 	var scope []*core.FuncInfo
 	for _, fi := range c.P.AllFuncs() {
 		if fi.Decl.Body == nil {
 			continue
 		}
-		if fi.Pkg == fpkg || fi == fuzzy || (c.Thorough && fi.Pkg == c.P.Pkg("")) {
+		if fi.Pkg == fpkg || fuzzyScope[fi] || (c.Thorough && fi.Pkg == c.P.Pkg("")) {
 			scope = append(scope, fi)
 			t.inScope[fi] = true
 		}
 	}
-	judged := func(fi *core.FuncInfo) bool { return fi.Pkg == fpkg || fi == fuzzy }
+	judged := func(fi *core.FuncInfo) bool { return fi.Pkg == fpkg || fuzzyScope[fi] }
 	// propagation to a fixpoint
 	for round := 0; round < 10; round++ {
 		t.changed = false
@@ -726,81 +745,90 @@ func c17R3(c *Ctx, tables map[*types.Named]*c17MatchTable) {
 		}
 		return
 	}
-	// Parse's dispatch: ordered (mime constant, FMTP type), default type
-	type arm struct {
-		mime string
-		typ  *types.Named
-	}
-	var arms []arm
-	var deflt *types.Named
+	// Parse's dispatch is read by exploring Parse with the mime type fixed to the literal's constant: every
+	// strings.EqualFold(mimeType, K) / strings.ToLower(mimeType) is evaluated on the constants by the checker, and the
+	// FMTP struct literals on the reachable paths are collected (independent of switch / if-chain / early returns).
 	pinfo := parse.Pkg.TypesInfo
-	litType := func(body []ast.Stmt) *types.Named {
-		var out *types.Named
-		for _, s := range body {
-			ast.Inspect(s, func(n ast.Node) bool {
-				if cl, ok := n.(*ast.CompositeLit); ok {
+	pg := c.P.GraphOf(parse)
+	mimeParam := parse.Obj.Type().(*types.Signature).Params().At(0)
+	fmtpIface := c.P.Named("internal/fmtp", "FMTP")
+	if fmtpIface == nil {
+		r.Fail(rule, "anchor:internal/fmtp.FMTP", "-", "interface no longer resolves")
+		return
+	}
+	iface := fmtpIface.Underlying().(*types.Interface)
+	isMimeExpr := func(e ast.Expr) bool {
+		v := core.VarOf(pinfo, e)
+		return v != nil && v == mimeParam
+	}
+	mimeAssigned := false
+	ast.Inspect(parse.Decl.Body, func(n ast.Node) bool {
+		if as, ok := n.(*ast.AssignStmt); ok {
+			for _, l := range as.Lhs {
+				if core.VarOf(pinfo, l) == mimeParam {
+					mimeAssigned = true
+				}
+			}
+		}
+		return true
+	})
+	if mimeAssigned {
+		r.Undecided(rule, "Parse|dispatch", c.P.Pos(parse.Decl.Pos()), "Parse reassigns its mime type parameter: the mime type -> FMTP type map cannot be read off")
+		return
+	}
+	dispatch := func(mime string) ([]*types.Named, string) {
+		cf := &core.ConstFlow{G: pg, Assume: func(e ast.Expr, env core.CFEnv) (constant.Value, bool) {
+			if isMimeExpr(e) {
+				return constant.MakeString(mime), true
+			}
+			call, ok := ast.Unparen(e).(*ast.CallExpr)
+			if !ok {
+				return nil, false
+			}
+			f := core.Callee(pinfo, call)
+			if f == nil || f.Pkg() == nil || f.Pkg().Path() != "strings" {
+				return nil, false
+			}
+			switch {
+			case f.Name() == "EqualFold" && len(call.Args) == 2:
+				for _, pr := range [][2]ast.Expr{{call.Args[0], call.Args[1]}, {call.Args[1], call.Args[0]}} {
+					if tv := pinfo.Types[pr[1]]; isMimeExpr(pr[0]) && tv.Value != nil && tv.Value.Kind() == constant.String {
+						return constant.MakeBool(strings.EqualFold(mime, constant.StringVal(tv.Value))), true
+					}
+				}
+			case (f.Name() == "ToLower" || f.Name() == "ToUpper") && len(call.Args) == 1 && isMimeExpr(call.Args[0]):
+				if f.Name() == "ToLower" {
+					return constant.MakeString(strings.ToLower(mime)), true
+				}
+				return constant.MakeString(strings.ToUpper(mime)), true
+			}
+			return nil, false
+		}}
+		res := cf.Run(pg.Entry, core.CFEnv{})
+		r.Cells += res.States
+		if len(res.Problems) > 0 {
+			return nil, strings.Join(res.Problems, "; ")
+		}
+		seen := map[*types.Named]bool{}
+		var out []*types.Named
+		for id := range res.Reached {
+			n := pg.Nodes[id]
+			if n.Ast == nil {
+				continue
+			}
+			core.InspectShallow(n.Ast, func(x ast.Node) bool {
+				if cl, ok := x.(*ast.CompositeLit); ok {
 					if nt, ok := pinfo.TypeOf(cl).(*types.Named); ok {
-						if _, isStruct := nt.Underlying().(*types.Struct); isStruct {
-							out = nt
+						if _, isStruct := nt.Underlying().(*types.Struct); isStruct && (types.Implements(types.NewPointer(nt), iface) || types.Implements(nt, iface)) && !seen[nt] {
+							seen[nt] = true
+							out = append(out, nt)
 						}
 					}
 				}
 				return true
 			})
 		}
-		return out
-	}
-	okShape := true
-	nSwitch := 0
-	ast.Inspect(parse.Decl.Body, func(n ast.Node) bool {
-		sw, ok := n.(*ast.SwitchStmt)
-		if !ok {
-			return true
-		}
-		nSwitch++
-		if sw.Tag != nil {
-			okShape = false
-			return false
-		}
-		for _, cl := range sw.Body.List {
-			cc := cl.(*ast.CaseClause)
-			lt := litType(cc.Body)
-			if lt == nil {
-				okShape = false
-				continue
-			}
-			if cc.List == nil {
-				deflt = lt
-				continue
-			}
-			for _, e := range cc.List {
-				call, ok := ast.Unparen(e).(*ast.CallExpr)
-				if !ok || len(call.Args) != 2 {
-					okShape = false
-					continue
-				}
-				f := core.Callee(pinfo, call)
-				if f == nil || f.Pkg() == nil || f.Pkg().Path() != "strings" || f.Name() != "EqualFold" {
-					okShape = false
-					continue
-				}
-				found := false
-				for _, a := range call.Args {
-					if tv := pinfo.Types[a]; tv.Value != nil && tv.Value.Kind() == constant.String {
-						arms = append(arms, arm{constant.StringVal(tv.Value), lt})
-						found = true
-					}
-				}
-				if !found {
-					okShape = false
-				}
-			}
-		}
-		return false
-	})
-	if !okShape || nSwitch != 1 || deflt == nil || len(arms) == 0 {
-		r.Undecided(rule, "Parse|dispatch", c.P.Pos(parse.Decl.Pos()), "Parse is not a single tagless switch over strings.EqualFold(mimeType, <constant>) arms with a default: the mime type -> FMTP type map cannot be read off")
-		return
+		return out, ""
 	}
 	// literals
 	info := reg.Pkg.TypesInfo
@@ -848,23 +876,21 @@ func c17R3(c *Ctx, tables map[*types.Named]*c17MatchTable) {
 			return true
 		}
 		// dispatch
-		var typ *types.Named
-		matches := 0
-		for _, a := range arms {
-			if strings.EqualFold(a.mime, mime) {
-				matches++
-				if typ == nil {
-					typ = a.typ
-				}
-			}
-		}
-		if typ == nil {
-			typ = deflt
-		}
-		if matches > 1 {
-			r.Fail(rule, key, p, "the mime type selects more than one arm of Parse")
+		types1, prob := dispatch(mime)
+		if prob != "" {
+			r.Undecided(rule, key, p, "Parse cannot be explored for this mime type: "+prob)
 			return true
 		}
+		if len(types1) != 1 {
+			var names []string
+			for _, t := range types1 {
+				names = append(names, t.Obj().Name())
+			}
+			sort.Strings(names)
+			r.Fail(rule, key, p, sprintf("Parse does not select exactly one FMTP type for this mime type: %v", names))
+			return true
+		}
+		typ := types1[0]
 		mt := tables[typ]
 		if mt == nil || mt.table == nil {
 			r.Undecided(rule, key, p, "no decision table for FMTP type "+typ.Obj().Name()+" (see R2)")
